@@ -276,6 +276,8 @@ func checkC18(c *Check) {
 	}
 	discoveryCacheKeyRule(c, "C18.R3")
 	transportIsOwn(c, "C18.R3")
+	// the key set a filter verifies with is derived from its own configuration (C02.R5's key-set provenance)
+	importObls(c, "C02", checkC02, "C18.R3", func(o *Obligation) bool { return strings.HasPrefix(o.Key, "C02.R5/keyset") })
 	handlerConfigOwn(c, "C18.R3", R)
 	// each Redis-backed filter talks to the Redis its own URI names (database and credentials included): the client
 	// handed to the store constructor is redis.NewClient of options parsed from this filter's URI, created for this
